@@ -1,1 +1,4 @@
 pub mod svm;
+pub mod ix;
+pub mod world;
+pub mod act;
